@@ -256,18 +256,27 @@ func TestC17Batches(t *testing.T) {
 			for _, nd := range nodes {
 				p.addPod(nd.Name, 'A', PSAvailable, time.Minute)
 			}
+			// a first sync records when the set became active; it has then been active for a minute, or for longer than
+			// the five minutes during which a sync still looks for canary labels to remove (another way out of the function)
+			c.Advance(time.Minute)
+			c.Reconcile(sim.ActorERS, "ns1", rs.Name)
 			for _, nd := range nodes {
 				c.MutateNode(nd.Name, func(x *corev1.Node) {
 					x.Spec.Taints = []corev1.Taint{{Key: "dedicated", Value: "gpu", Effect: corev1.TaintEffectNoSchedule}}
 				})
 			}
-			c.Advance(time.Minute)
+			c.Advance(rapid.SampledFrom([]time.Duration{time.Minute, time.Minute, 6 * time.Minute, time.Hour}).Draw(rt, "activeSince"))
 			rcl := c.Reconcile(sim.ActorERS, "ns1", rs.Name)
 			post := c.ERS("ns1", rs.Name)
 			// the statement says "ReconcileError or PodsCleanupDone": either condition may carry the failure
 			cd := oracle.RSCond(&post.Status, edsv1.ConditionTypePodsCleanupDone)
 			cleanupFalse := cd != nil && cd.Status == corev1.ConditionFalse
 			recErr := oracle.RSCondTrue(&post.Status, edsv1.ConditionTypeReconcileError)
+			// "reflected in the error the sync reports": the strategy's error is what the reconcile records as
+			// ReconcileError (its own return value only carries the fate of the status write)
+			if injected > 0 && !recErr && !(concurrentWrite && rcl.Err != nil) {
+				fail("C17/conditions/cleanup-failure-not-in-the-sync-error", fmt.Sprintf("%d clean-up deletions failed but the error the sync reports (ReconcileError) does not show it; PodsCleanupDone=%v", injected, cd))
+			}
 			if injected > 0 && !cleanupFalse && !recErr && !(concurrentWrite && rcl.Err != nil) {
 				fail("C17/conditions/cleanup-failure-not-reflected", fmt.Sprintf("%d clean-up deletions failed but neither ReconcileError is True nor PodsCleanupDone False (sync err=%v)", injected, rcl.Err))
 			}
